@@ -121,7 +121,7 @@ def _inproc_chunk(args):
 
 def search(ctx, deep):
     r = random.Random(ctx.seed * 137 + 2)
-    n = (12 if ctx.tier == "quick" else 100) * (3 if deep else 1)
+    n = (24 if ctx.tier == "quick" else 100) * (3 if deep else 1)
     progs = [future_heavy(r) for _ in range(n)]
     cases = [([p], 2 if i % 3 == 0 else None) for i, p in enumerate(progs)]
     seeds = [0, 1, 2, 3, 12345] if ctx.tier == "quick" else list(range(12)) + [12345, 987654321]
